@@ -8,13 +8,13 @@ META = {
         "17.b moon phase index = day - 1; minor Ren of a lunar month and of a lunar day",
         "17.d month nine star: first month 8 / 5 / 2 by year-branch group, one less each month",
         "17.e 28 mansions on the lunar-day and sexagenary-day routes: luminary = weekday, +1 per day (for every consistent weekday / day pillar pair)",
-        "17.c flying nine star of the year descends one per year from 1864 = One White (three 360-year windows; period 180), LunarYear and SixtyCycleYear",
+        "17.c flying nine star of the year descends one per year from 1864 = One White (period 180), LunarYear and SixtyCycleYear: quick tier on five 360-year windows (both ends of the range, the present, two rotated by VERIF_SEED), thorough tier on all 28 windows = every year -1..9999",
         "17.f flying nine star of the hour: ascending between the winter- and summer-solstice days, descending otherwise, first star by the day-branch group, one per double hour (lunar-hour and instant-level routes)",
         "17.h flying nine star of the day, dates on or after the civil year's first turning day: ascending one per day from One White at the Jiazi day nearest the winter solstice, descending one per day from Nine Purple at the Jiazi day nearest the summer solstice, a run lasting until the next turning day ('nearest': solstice pillar index > 29 takes the next Jiazi day, otherwise the previous one); both routes, every solstice table and pillar alignment",
         "17.i the same for the dates before the first turning day (continuing the run from the Jiazi day nearest the previous summer solstice): the real code counts back from the first turning day instead — KNOWN FINDING (star jumps on January 1 after a 240-day descending run); the check first proves that the code's behaviour there is exactly the count-back formula, any other deviation is a violation",
         "17.g day officer: Jian exactly when day branch = month branch, +1 per branch; Yellow/Black-path spirit from the month (day) branch for days (hours)",
     ],
-    "outside": ["flying nine star of the year outside the three windows",
+    "outside": ["flying nine star of the year outside the windows of the tier (the thorough tier covers every year)",
                 "that the month pillar used by the day officer is the one C08 leaves outside (switching at Jie days)"],
     "assumptions": [
         "engine B object model: axioms A-index (11.d), A-pillar (19.h); weekday = (N+1) mod 7 (07.a) and day pillar = (N+49) mod 60 (07.c) for day number N",
@@ -26,6 +26,17 @@ META = {
 
 def jobs(tier, seed):
     return []
+
+def year_windows(tier, seed):
+    """360-year windows for the year nine star: quick = the two ends, the present, and two seed-rotated ones; thorough = the whole range -1..9999"""
+    allw = [(-1, 360)] + [(lo, min(lo + 360, 9999)) for lo in range(360, 9999, 360)]
+    if tier == "thorough":
+        return allw
+    import random
+    rnd = random.Random(seed)
+    fixed = [(-1, 360), (1684, 2044), (9640, 9999)]
+    extra = rnd.sample([w for w in allw[1:-1]], 2)
+    return fixed + [w for w in extra if w not in fixed]
 
 def engine_b(tier, seed, scr):
     from props._b import engine
@@ -39,4 +50,4 @@ def engine_b(tier, seed, scr):
             almanac.k_hour_nine_star(eng, "LunarHour"), almanac.k_hour_nine_star(eng, "SixtyCycleHour"),
             almanac.k_day_nine_star(eng, "LunarDay", False), almanac.k_day_nine_star(eng, "SixtyCycleDay", False),
             almanac.k_day_nine_star(eng, "LunarDay", True), almanac.k_day_nine_star(eng, "SixtyCycleDay", True)] + \
-           [almanac.k_year_nine_star(eng, w, lo, hi) for w in ("LunarYear", "SixtyCycleYear") for (lo, hi) in ((-1, 360), (1684, 2044), (9640, 9999))]
+           [almanac.k_year_nine_star(eng, w, lo, hi) for w in ("LunarYear", "SixtyCycleYear") for (lo, hi) in year_windows(tier, seed)]
